@@ -128,7 +128,7 @@ func bigConfigs(thorough bool) []mcfg {
 	return []mcfg{
 		{"mix44", []string{"S", "Mid", "Malt", "T0"}, 4, 2, false},
 		{"req43", []string{"R", "Rm", "Rmnull"}, 4, 2, false},
-		{"all3", allKinds, 3, 1, false},
+		{"all3", []string{"S", "Smiss", "Ka", "Kbc", "Kanull", "N", "Nbad", "Mid", "Malt", "Mmiss", "Rm", "T0"}, 3, 1, false},
 		{"cover", []string{"S", "Smiss", "Mid", "Malt", "Rm", "R", "U", "T0"}, 2, 1, true},
 	}
 }
